@@ -316,7 +316,7 @@ impl Property for P {
     }
     fn cases(tier: Tier) -> u64 {
         match tier {
-            Tier::Quick => 5_000,
+            Tier::Quick => 25_000,
             Tier::Thorough => 200_000,
         }
     }
